@@ -199,6 +199,9 @@ def parse_operand(s):
         return ('move', parse_place(s[5:]))
     if s.startswith('const '):
         return ('const', parse_const(s[6:].strip()))
+    if re.match(r'^[<A-Za-z_][^=]*$', s) and not s.startswith('_'):
+        # a function item named directly (passed as a value)
+        return ('const', ('fnitem', s))
     raise Unsupported('operand: ' + s)
 
 
@@ -759,7 +762,7 @@ class Crate(object):
                 raise Unsupported('ambiguous callee %s: %s' % (callee, [f.name for f in cands]))
             return None
         plain = strip_generics(c)
-        segs = plain.split('::')
+        segs = [x for x in plain.split('::') if x]
         if len(segs) >= 2:
             ty, meth = segs[-2], segs[-1]
             cands = [f for f in self.by_method.get(meth, []) if self.impl_info(f)[0] == ty
